@@ -28,6 +28,8 @@ NAMES = {
     # not exposed by the library object (Merkle-cell internals / reserved all-zero fields); None = not compared, listed
     'MERKLE_UPDATE': {'old_depth': None, 'new_depth': None},
     'CatchainConfig': {'flags': None},
+    'ConsensusConfig': {'flags': None},
+    'OracleBridgeParams': {'external_chain_address': 'external_chain_address_hex'},
 }
 # constructor -> the label the library reports in `type_` where it is not the constructor name or its suffix
 TYPE_LABEL = {('AccountStatus', 'acc_state_uninit'): 'uninitialized', ('TransactionDescr', 'trans_ord'): 'ordinary',
